@@ -48,6 +48,10 @@ func failedReask(tr []string) bool {
 			held = true
 		case op == "Release"+sub || op == "RemoteDelete"+sub:
 			held = false
+		case op == "Restart":
+			// a restart reloads whatever the store holds (e.g. a record whose delete failed earlier):
+			// holder-ness is then established by the adapter's reference (it emitted "holder ... asked again")
+			held = true
 		}
 	}
 	return held
